@@ -3,7 +3,7 @@ import ast
 
 from ..model import AnalysisError, dotted, unparse
 from ..structfmt import parse_format, local_defs, resolve_local, linform, lin_eq, SIZES, calcsize_const
-from ..util import U, enum_paths, walk_no_nested
+from ..util import POS, FACTS, U, enum_paths, walk_no_nested
 from ..paths import call_attr, call_name
 from .. import wire
 
@@ -273,11 +273,11 @@ def r4(ctx, bh, pr):
   txt = U(dm.node)
   ok = ('MessageType.MetadataRequest' in txt and '_DeserializeMetadataResponse' in txt and 'MessageType.ProduceRequest' in txt and '_DeserializeProduceResponse' in txt)
   for ev, ex in enum_paths(ctx, dm):
-    conds = [(U(e.node), e.info) for e in ev if e.kind == 'cond']
+    conds = FACTS(ev)
     calls = [call_attr(e.node) for e in ev if e.kind == 'call']
-    if any(c.endswith('MessageType.MetadataRequest') and t for c, t in conds):
+    if ('msg_type==MessageType.MetadataRequest', True) in conds:
       ok = ok and '_DeserializeMetadataResponse' in calls
-    if any(c.endswith('MessageType.ProduceRequest') and t for c, t in conds):
+    if ('msg_type==MessageType.ProduceRequest', True) in conds:
       ok = ok and '_DeserializeProduceResponse' in calls
   ctx.ob('C15.R4', dm, 'response decoder selected by the request type', ok, 'dispatch changed', 'metadata and produce responses have different layouts')
   mt = prog.cls(KP, 'MessageType')
